@@ -18,6 +18,8 @@ From Coq Require Import ZArith QArith List Bool Permutation.
 From DV Require Import Model.PyPrims Model.Tree Model.C17Model.
 From DV Require Import Proofs.C17Ages Proofs.C17AgesThm Proofs.C17Depth Proofs.C17Stats Proofs.C17Perm.
 From DV Require Import Proofs.C17Gamma Proofs.C17Fix Proofs.C17Extra.
+From DV Require Import Model.C17Prims Gen.Ages Proofs.C17GenLib Proofs.C17GenStats Proofs.C17GenDepth Proofs.C17GenAges.
+From DV Require Import Proofs.C17GenSetLen Proofs.C17GenGamma.
 Import ListNotations.
 Open Scope Z_scope.
 
@@ -77,13 +79,12 @@ Theorem accepted_drift_bound : forall c p t a,
 Proof. exact accepted_drift_bound_l. Qed.
 Print Assumptions accepted_drift_bound.
 
-(* A rejection is justified: the node at which the error is raised has two tip paths differing by
-   more than the precision.  The error is UltrametricityError, or TypeError when a later sibling
-   has no length (the error message adds None to a float). *)
+(* A rejection is justified: it is an UltrametricityError, and the node at which it is raised has
+   two tip paths differing by more than the precision. *)
 Theorem reject_sound : forall c p t e n,
   c_fmax c = false -> c_fmin c = false -> check_prec (c_prec c) = Some p ->
   calc_node_ages c t = CErr e n ->
-  (e = Ultra \/ (e = Py TypeErr /\ exists v k, In v (preorder t) /\ In k (t_kids v) /\ t_len k = None))
+  e = Ultra
   /\ exists v, In v (preorder t) /\ t_id v = n
        /\ exists d1 d2, In d1 (tipdists v) /\ In d2 (tipdists v) /\ Z.abs (d1 - d2) > p.
 Proof. exact reject_sound_l. Qed.
@@ -421,3 +422,115 @@ Theorem fixed_same_elsewhere : forall c t,
   calc_node_ages_fix c t = calc_node_ages c t.
 Proof. exact fixed_same_elsewhere_l. Qed.
 Print Assumptions fixed_same_elsewhere.
+
+(* ---------------------------------------------------------------------------------------------- *)
+(* TRANSLATOR TIE.  coq/Gen/Ages.v is regenerated from the Python source on every run by
+   py/dv/gen_ages.py (statement by statement, over the primitives of Model/C17Prims.v).  The
+   theorems below say that the generated functions compute exactly what the hand-written model
+   computes, on every tree with distinct node identities and every attribute store whose edge
+   lengths are those of the tree (`init_store t` is one).  Hence every theorem above holds of the
+   generated code; an edit of the Python changes Gen/Ages.v and breaks these proofs.
+
+   store: s_age / s_len / s_rd = the attributes x.age, x.edge.length, x.root_distance by identity;
+   lens_agree st t: the store's lengths are the tree's; ids t: the identities in pre-order. *)
+
+Theorem gen_init_store_agrees : forall t, NoDup (ids t) -> lens_agree (init_store t) t.
+Proof. exact init_store_agrees. Qed.
+Print Assumptions gen_init_store_agrees.
+
+(* Tree.calc_node_ages (set_node_age_fn=None): same exception, or same returned list, the ages of the
+   model's result in the age attributes, its lengths in the length attributes, nothing else touched *)
+Theorem gen_calc_node_ages_eq : forall pv fmx fmn io t st,
+  lens_agree st t -> NoDup (ids t) ->
+  match calc_node_ages (mkCfg pv fmx fmn) t with
+  | COk a =>
+    exists st', g_calc_node_ages pv fmx fmn io t st = XOk (st', map Some (ret_ages io a))
+      /\ (forall v, In v (apreorder a) -> s_age st' (a_id v) = Some (a_age v))
+      /\ lens_agree st' (aforget a)
+      /\ (forall j, ~ In j (ids t) -> s_age st' j = s_age st j /\ s_len st' j = s_len st j)
+      /\ s_rd st' = s_rd st
+  | CErr e n => g_calc_node_ages pv fmx fmn io t st = XErr e
+  end.
+Proof. exact g_calc_node_ages_eq_l. Qed.
+Print Assumptions gen_calc_node_ages_eq.
+
+(* Tree.calc_node_root_distances: same list or TypeError; root_distance attributes as in the model
+   (rd_ok_all: every node below the root carries its length + the parent's distance) *)
+Theorem gen_calc_node_root_distances_eq : forall lo t st, lens_agree st t -> NoDup (ids t) ->
+  match calc_node_root_distances lo t with
+  | Ok l => exists st', g_calc_node_root_distances lo t st = XOk (st', l)
+              /\ s_rd st' (t_id t) = Some 0 /\ rd_ok_all st' 0 (t_kids t)
+              /\ s_age st' = s_age st /\ s_len st' = s_len st
+  | Err e => g_calc_node_root_distances lo t st = XErr (Py e)
+  | OutOfFuel => False
+  end.
+Proof. exact g_root_distances_eq_l. Qed.
+Print Assumptions gen_calc_node_root_distances_eq.
+
+Theorem gen_num_lineages_at_eq : forall x t st, lens_agree st t -> NoDup (ids t) ->
+  match num_lineages_at x t with
+  | Ok n => exists st', g_num_lineages_at x t st = XOk (st', n) /\ s_age st' = s_age st /\ s_len st' = s_len st
+  | Err e => g_num_lineages_at x t st = XErr (Py e)
+  | OutOfFuel => False
+  end.
+Proof. exact g_num_lineages_eq_l. Qed.
+Print Assumptions gen_num_lineages_at_eq.
+
+(* treemeasure.*: the store is not changed; of_res maps the model's result (Err e -> the Python
+   exception class e) *)
+Theorem gen_treeness_eq : forall t st, lens_agree st t ->
+  g_treeness t st = xbind (of_res (treeness t)) (fun q => XOk (st, q)).
+Proof. exact g_treeness_eq_l. Qed.
+Print Assumptions gen_treeness_eq.
+
+Theorem gen_N_bar_eq : forall t st, g_N_bar t st = XOk (st, N_bar t).
+Proof. exact g_N_bar_eq_l. Qed.
+Print Assumptions gen_N_bar_eq.
+
+(* equal up to == on the rational (the Yule normalisation sums 1/j in a different order) *)
+Theorem gen_sackin_index_eq : forall w nm t st,
+  Qeq_bool (pow15 w) 0 = false ->
+  xq_equiv (g_sackin_index w nm t st) (xbind (of_res (sackin_index w nm t)) (fun q => XOk (st, q))).
+Proof. exact g_sackin_eq_l. Qed.
+Print Assumptions gen_sackin_index_eq.
+
+Theorem gen_colless_tree_imbalance_eq : forall w nm t st,
+  NoDup (ids t) -> Qeq_bool (pow15 w) 0 = false ->
+  g_colless_tree_imbalance w nm t st = xbind (of_res (colless_tree_imbalance w nm t)) (fun q => XOk (st, q)).
+Proof. exact g_colless_eq_l. Qed.
+Print Assumptions gen_colless_tree_imbalance_eq.
+
+Theorem gen_B1_eq : forall t st, NoDup (ids t) ->
+  exists q, g_B1 t st = XOk (st, q) /\ (q == B1 t)%Q.
+Proof. exact g_B1_eq_l. Qed.
+Print Assumptions gen_B1_eq.
+
+(* Tree.set_edge_lengths_from_node_ages on a store carrying the ages of `a` (ages_agree): same
+   exception, or the lengths of the model's result tree in the length attributes (aids a: the
+   identities of a, pre-order) *)
+Theorem gen_set_edge_lengths_from_node_ages_eq : forall mn eon a st,
+  ages_agree st a -> NoDup (aids a) -> s_len st (a_id a) = a_len a ->
+  match set_edge_lengths_from_node_ages mn eon a with
+  | Ok t' =>
+    exists st', g_set_edge_lengths_from_node_ages mn eon (aforget a) st = XOk (st', tt)
+      /\ lens_agree st' t' /\ ids t' = aids a
+      /\ (forall j, ~ In j (aids a) -> s_len st' j = s_len st j)
+      /\ s_age st' = s_age st /\ s_rd st' = s_rd st
+  | Err er => g_set_edge_lengths_from_node_ages mn eon (aforget a) st = XErr (Py er)
+  | OutOfFuel => False
+  end.
+Proof. exact g_set_edge_lengths_eq_l. Qed.
+Print Assumptions gen_set_edge_lengths_from_node_ages_eq.
+
+(* treemeasure.pybus_harvey_gamma on a tree without ages (it then calls calc_node_ages): the value is
+   numerator / (T * sqrt_f), i.e. gamma_value of the model's exact parts *)
+Theorem gen_pybus_harvey_gamma_eq : forall w pv t st,
+  Qeq_bool (sqrt_f w) 0 = false ->
+  s_age st (t_id t) = None -> lens_agree st t -> NoDup (ids t) ->
+  match pybus_harvey_gamma pv t with
+  | GOk p => exists st', g_pybus_harvey_gamma w pv t st = XOk (st', gamma_value w p)
+  | GAgeErr e => g_pybus_harvey_gamma w pv t st = XErr e
+  | GErr e => g_pybus_harvey_gamma w pv t st = XErr (Py e)
+  end.
+Proof. exact g_gamma_eq_l. Qed.
+Print Assumptions gen_pybus_harvey_gamma_eq.
